@@ -1,5 +1,6 @@
 import Femio.Driver.Proto
 import Femio.Model.ResFile
+import Femio.Model.ResDir
 /-! driver commands for C02 (FrontISTR result files)
 
 ```
@@ -12,6 +13,7 @@ c02.parse <nNodes> <nElems> <text>  -> ok 0 | ok 1 <sec> <0 | 1 sec>
 c02.readdir <wrapSingleton 0|1> <timeSeries 0|1> <nNodes> <nElems> <typeIds: list(nat list(nat))> <files: list(str text)>
         -> ok 0                                             (the real code raises)
          | ok 1 <steps: list nat> <nodal: list sattr> <elemental: list sattr>
+c02.find <listing: list str>       -> ok <list str>    -- `findRes`: the names `read_directory` globs as `*.res.*`
    sattr := str list(nat) list( list( list str ) )          -- name, ids, per step: per id: values
 ``` -/
 namespace Femio.C02
@@ -70,6 +72,9 @@ def handle : List String → Option String
         | none => some "ok 0"
         | some none => some (showDir ⟨[], [], []⟩)
         | some (some (s, r)) => some (showDir ⟨[s], r.nodal.map toSeries, r.elemental.map toSeries⟩)
+  | "c02.find" :: rest => do
+    let listing ← run (listOf str) rest
+    some ("ok " ++ showList showStr (findRes listing))
   | _ => none
 
 end Femio.C02
